@@ -21,6 +21,8 @@ const fluentPkg = modPath + "/fluent"
 // of the stored value: "Struct.Field←p:<param>" / "←const" / "←lit:<Struct>" / "←?".
 func storeSig(fn *ssa.Function, depth int) []string {
 	out := map[string]bool{}
+	// parameters of helpers reached through static calls are named by the caller's argument
+	paramSrc := map[*ssa.Parameter]string{}
 	var valueSrc func(v ssa.Value, d int) string
 	valueSrc = func(v ssa.Value, d int) string {
 		if d > 6 {
@@ -28,6 +30,9 @@ func storeSig(fn *ssa.Function, depth int) []string {
 		}
 		switch x := v.(type) {
 		case *ssa.Parameter:
+			if s, ok := paramSrc[x]; ok {
+				return s
+			}
 			for i, p := range x.Parent().Params {
 				if p == x {
 					return fmt.Sprintf("p%d", i)
@@ -144,7 +149,12 @@ func storeSig(fn *ssa.Function, depth int) []string {
 					out[typeName(fa.X.Type())+"."+st.Field(fa.Field).Name()+"←"+valueSrc(x.Val, 0)] = true
 				case *ssa.Call:
 					if d > 0 {
-						if sc := x.Call.StaticCallee(); sc != nil && sc.Pkg == fn.Pkg && sc.Blocks != nil {
+						if sc := x.Call.StaticCallee(); sc != nil && sc.Pkg == fn.Pkg && sc.Blocks != nil && sc != f {
+							for i, prm := range sc.Params {
+								if i < len(x.Call.Args) {
+									paramSrc[prm] = valueSrc(x.Call.Args[i], 1)
+								}
+							}
 							visit(sc, d-1)
 						}
 					}
@@ -342,7 +352,7 @@ func ruleSetterRows(c *Ctx) {
 		for _, nm := range names {
 			n++
 			c.Sites++
-			sig := storeSig(fns[nm], 1)
+			sig := storeSig(fns[nm], 2)
 			key := b + "." + nm
 			if dump {
 				fmt.Printf("\t%q: {%s},\n", key, quoteJoin(sig))
@@ -435,14 +445,7 @@ func ruleEntriesToModifyRequest(c *Ctx) {
 				if len(lp) == 0 {
 					return true
 				}
-				ro, rp := selectorPath(info, x.Rhs[0])
-				src := "?"
-				if ro != nil {
-					src = paramRole(info, fi.Decl, ro)
-					if len(rp) > 0 {
-						src += "." + strings.Join(rp, ".")
-					}
-				}
+				src := roleTerm(fi, x.Rhs[0])
 				switch lp[len(lp)-1] {
 				case "Op":
 					out = append(out, Event{Kind: "op←" + src, Node: x})
@@ -501,7 +504,7 @@ func ruleElectionIDStores(c *Ctx) {
 		c.Sites++
 		var sig []string
 		if fi.SSA != nil {
-			sig = storeSig(fi.SSA, 0)
+			sig = storeSig(fi.SSA, 2)
 		}
 		lowIdx, highIdx := 1, 2
 		if t[1] == "UpdateElectionID" {
